@@ -38,6 +38,10 @@ ASSUMPTIONS = [
     "enter(None) for an unguarded single child that is None is outside the model (outcome NoneNode, never produced by parsed documents)",
 ]
 TRUSTED = [
+    "child-kind table `childKinds` (hypothesis `wellKinded` of all_covered_children_visited / siblings_in_source_order_today): classes admitted per "
+    "(kind, attribute) = annotations of lang/ast.py with abstract bases expanded UNION classes the real parser produces on the probe documents of "
+    "C18_table.py (witnesses, two all-features probes, both kitchen sinks); every document of every run is checked against it (`wellkinded:*` = a "
+    "correspondence failure); `source order` of siblings = `__slots__` order, checked against `loc` on the probe documents at extraction",
     "dynamic fallback of the table extraction (C18_dynamic.py, used only when the static extractor does not recognise a shape; evidence key `extraction`): "
     "ENUMERATION ASSUMPTION - the traversal of a node depends only on its class and on which attributes are None, children are dispatched by their own class; "
     "observed on one maximal instance per node class of lang/ast.py with a recording visitor, a None probe per single child and a replacement probe per attribute",
